@@ -24,12 +24,18 @@ definition accounts for makes the generator FAIL (non-zero exit, message naming 
 statement).  Nothing is skipped silently: the regimes that are deliberately not translated are listed
 in SKIPPED with the reason.
 
-Standard library only.  `main()` regenerates coq/Gen/Exprs.v and coq/Gen/Exprs2.v (each written only when its
-content changes).
+Standard library only.  `main()` regenerates coq/Gen/Exprs.v, coq/Gen/Exprs2.v and coq/Gen/Exprs3.v (each written only
+when its content changes).
 
 PART 2 (second half of this file, SPECS2 -> coq/Gen/Exprs2.v, tied by Proofs/ExprsTie2.v) extends the same mechanism
 to src/sop/cube.rs, src/sop/ecube.rs, src/bdd.rs and src/canonization.rs with a translator that is typed by the
 declared Rust types (u32 / u64 / usize / bool / Cube / Ecube); see the comment that opens part 2.
+
+PART 3 (last third of this file, SPECS3 -> coq/Gen/Exprs3.v, tied by Proofs/ExprsTie3.v) goes back to
+src/operations.rs and src/decomposition.rs with the machinery of part 2 and translates what part 1 leaves to the
+hand-written model: the whole-word regimes (strides, loop guards, indices read and written, which word goes where),
+the regime selectors, fill_symmetric word by word, table_size / hex_str_size / the text widths, the arithmetic of
+fill_hex, the control flow of next_inplace; see the comment that opens part 3.
 """
 import os
 import re
@@ -58,6 +64,8 @@ def fail(msg):
 INT_SUFFIX = r"(?:u8|u16|u32|u64|u128|usize|i8|i16|i32|i64|i128|isize)"
 TOKEN_RE = re.compile(r"""
   (?P<ws>\s+)
+ |(?P<str>b?"(?:[^"\\]|\\.)*")
+ |(?P<char>b?'(?:[^'\\]|\\.)')
  |(?P<int>0x[0-9a-fA-F_]+""" + INT_SUFFIX + r"""?|0b[01_]+""" + INT_SUFFIX + r"""?|[0-9][0-9_]*""" + INT_SUFFIX + r"""?)
  |(?P<id>[A-Za-z_][A-Za-z_0-9]*)
  |(?P<op><<=|>>=|\.\.=|<<|>>|<=|>=|==|!=|&&|\|\||\+=|-=|\*=|/=|%=|&=|\|=|\^=|->|=>|::|\.\.|[-+*/%&|^!=<>.,;:()\[\]{}?])
@@ -149,6 +157,33 @@ def find_at_depth0(toks, i, stop, where, brace_is_group=True):
     return len(toks)
 
 
+# part 3 switches the parsing of `match` statements on (parts 1 and 2 keep failing on them)
+ALLOW_MATCH = [False]
+
+
+def parse_arms(toks, where):
+    """arms of a `match`: [(pattern tokens, statements of the arm)]"""
+    arms = []
+    i, n = 0, len(toks)
+    while i < n:
+        a = find_at_depth0(toks, i, {"=>"}, where)
+        if a >= n:
+            fail("%s: match arm without `=>`: %s" % (where, norm(toks[i:i + 8])))
+        pat = toks[i:a]
+        if a + 1 < n and toks[a + 1].text == "{":
+            e = skip_group(toks, a + 1, where)
+            body = parse_block(toks[a + 2:e], where)
+            i = e + 1
+        else:
+            e = find_at_depth0(toks, a + 1, {","}, where)
+            body = parse_block(toks[a + 1:e], where)
+            i = e
+        if i < n and toks[i].text == ",":
+            i += 1
+        arms.append((pat, body))
+    return arms
+
+
 def parse_block(toks, where):
     """statements of a block body (tokens without the enclosing braces)"""
     out = []
@@ -206,7 +241,16 @@ def parse_block(toks, where):
             out.append(Stmt("for", toks[i:e + 1], head=toks[i + 1:b], body=parse_block(toks[b + 1:e], where)))
             i = e + 1
         elif t.text == "match":
-            fail("%s: `match` is outside the translated fragment: %s" % (where, norm(toks[i:i + 12])))
+            if not ALLOW_MATCH[0]:
+                fail("%s: `match` is outside the translated fragment: %s" % (where, norm(toks[i:i + 12])))
+            # part 3: `match e { pat => body, .. }` is kept as an if-like statement whose "conditions" are the patterns
+            b = find_at_depth0(toks, i + 1, {"{"}, where, brace_is_group=False)
+            if b >= n:
+                fail("%s: `match` without block" % where)
+            e = skip_group(toks, b, where)
+            out.append(Stmt("if", toks[i:e + 1], branches=parse_arms(toks[b + 1:e], where), is_match=True,
+                            scrutinee=toks[i + 1:b]))
+            i = e + 1
         elif t.text == "return":
             j = find_at_depth0(toks, i, {";"}, where)
             out.append(Stmt("return", toks[i:j + 1], rhs=toks[i + 1:j]))
@@ -447,6 +491,11 @@ class ExprParser:
         t = self.next()
         if t.kind == "int":
             return parse_int_token(t.text)
+        if t.kind in ("str", "char"):
+            return (t.kind, t.text)
+        if t.text == "(" and self.peek() == ")":
+            self.next()
+            return ("tuple",)
         if t.text == "(":
             e = self.expr(0)
             if self.peek() == ",":
@@ -867,6 +916,8 @@ SKIPPED_LETS = {
 }
 # locals that a definition is abstracted over (filled while generating; listed at the end of Exprs.v)
 OVERRIDDEN = []
+# (file, fn) -> Fn of the last run of generate() (part 3 reads which statements part 1 accounts for)
+FN_CACHE1 = {}
 
 
 # ----------------------------------------------------------------------------------------------
@@ -1158,6 +1209,8 @@ def generate():
         regions.setdefault(key, set()).add(spec["path"])
     for key, fn in fn_cache.items():
         check_coverage(fn, regions[key])
+    FN_CACHE1.clear()
+    FN_CACHE1.update(fn_cache)
     # every SKIPPED regime must still exist (otherwise the list is stale)
     for (file, fname, path) in SKIPPED:
         if (file, fname) in fn_cache:
@@ -1472,7 +1525,7 @@ def free_vars2(e, abstractions, bound=frozenset()):
         if ast == e:
             return {name}
     k = e[0]
-    if k == "int":
+    if k in ("int", "tuple", "str", "char"):
         return set()
     if k == "path":
         return set() if ("::" in e[1] or e[1] in bound) else {e[1]}
@@ -1656,7 +1709,7 @@ class Translator2:
         self.err("node %r" % (k,))
 
     def sub(self):
-        s = Translator2(self.where, self.env, self.abstractions, self.source, self.hints)
+        s = type(self)(self.where, self.env, self.abstractions, self.source, self.hints)
         s.recording = self.recording
         return s
 
@@ -1958,9 +2011,17 @@ def block_closures(fn, s):
     return out
 
 
+# part 3 adds loop shapes (ranges, enumerate) while it runs
+FOR_BINDER_EXTRA = [None]
+
+
 def for_binder(fn, s, binders):
     """`for x in <slice parameter>`: x has the element type"""
     h = s.head
+    if FOR_BINDER_EXTRA[0] is not None:
+        extra = FOR_BINDER_EXTRA[0](fn, s, binders)
+        if extra:
+            return extra
     if len(h) >= 3 and h[0].kind == "id" and h[1].text == "in":
         rest = h[2:]
         if rest and rest[0].text == "&":
@@ -2223,10 +2284,13 @@ def parse_param(p):
     return name, (ty or None)
 
 
-def build_definition2(fn, spec):
+def build_definition2(fn, spec, translator=None, find_target=None, overridden=None):
+    translator = translator or Translator2
+    find_target = find_target or find_target2
+    overridden = OVERRIDDEN2 if overridden is None else overridden
     where0 = "%s [%s]" % (fn.where, ", ".join(spec["path"]))
     block, scope, binders = find_region2(fn, spec["path"])
-    expr, cov, sc, bd, want_ty = find_target2(fn, spec, block, scope, binders)
+    expr, cov, sc, bd, want_ty = find_target(fn, spec, block, scope, binders)
     stmt = cov[0]
     where = "%s: `%s`" % (where0, stmt_text(fn, stmt))
     abstractions = [(parse_expr(tokenize(k, where), where), v) for k, v in spec["abs"].items()]
@@ -2299,13 +2363,13 @@ def build_definition2(fn, spec):
         if s.kind == "let" and s.name in pnames:
             s.covered = True
             ent = (fn.file, fn_label(fn.impl, fn.name), stmt_text(fn, s))
-            if ent not in OVERRIDDEN2:
-                OVERRIDDEN2.append(ent)
+            if ent not in overridden:
+                overridden.append(ent)
     order = [s for s in sc if s in needed]
     for d in reversed(order):
         expr = ("let", d.name, d.ann, d.ast2, expr)
         d.covered = True
-    tr = Translator2(where, dict(params), abstractions, fn.source, spec["hints"])
+    tr = translator(where, dict(params), abstractions, fn.source, spec["hints"])
     body, ty = tr.tr(expr, want)
     if whole:
         if not (ty == want or ty == "lit" and is_int(want)):
@@ -2680,13 +2744,572 @@ def generate2():
     return "\n".join(L), defs
 
 
+# ==============================================================================================
+# PART 3: what parts 1 left to the hand-written model in src/operations.rs and src/decomposition.rs
+#         ->  coq/Gen/Exprs3.v   (tied to the model by Proofs/ExprsTie3.v)
+#
+#   * the whole-word regimes (variable index above 5) of flip / cofactor0 / cofactor1 / from_cofactors / swap and of
+#     input_property_helper: the stride lets, the loop guard as a boolean function of the loop index, the index
+#     expressions of the words read and written, the value that is stored (a read `table[e]` of a slice parameter is
+#     `nthN table (N.to_nat e)`), the arguments of `table.swap(a, b)`, the loop heads `0..table.len()`
+#   * the regime selectors themselves (`ind <= 5`, `i <= 5`, `j <= 5`, `ind1 == ind2`, `k == 0`, `k > num_vars`)
+#   * fill_symmetric word by word, the constants of fill_parity / fill_majority / swap_adjacent_inplace, fill_one / fill_zero
+#   * table_size, hex_str_size (whole bodies), the widths of to_hex / to_bin, the arithmetic of fill_hex
+#   * the control flow of next_inplace
+# The machinery is the one of part 2 (typed by the declared Rust types); parts 1 and 2 are left as they are, their
+# output is byte-identical.  Additions of part 3:
+#   x[e] on a slice parameter -> nthN x (N.to_nat e)      x.len() -> length x  (a nat; N.of_nat where a usize is needed)
+#   num_vars_mask(e) -> num_vars_mask e (model vocabulary, tied by ExprsTie.tie_num_vars_mask)
+#   usize::count_ones(e) -> popcount e      f(e) for a function of the same file translated as a whole -> gx_f e
+#   lo..hi (loop head) -> seq lo (hi - lo)      T.iter().enumerate() on a constant table -> combine (map N.of_nat (seq 0 (length T))) T
+#   &str parameters are byte lists (as in the model);  `match` statements are parsed (arms are selected like branches)
+# New targets (with `#k` = k-th candidate in source order):
+#   cond                  the condition of the k-th `if` / `else if` of the region (not the body: an edit of `==` into `!=`
+#                         changes the generated definition instead of making the statement impossible to find)
+#   store:<x>             the value stored by the k-th assignment `x[..] = e` / `x[..] op= e`
+#   storeidx:<x>          the index of the place written by that assignment
+#   mcallarg:<x>.<m>:<i>  argument i of the unique call `x.m(..)`
+#   ret                   the value of the k-th `return e;`
+#   forhead               the iterated expression of the k-th `for`
+#   rangelo:<v> rangehi:<v>   the bounds of `let v = &x[lo..hi];`
+# Coverage: in every function part 3 touches, each let / assignment / written index / non-trivial statement / `if`
+# condition / loop head must be accounted for by a definition of part 3, by a definition of part 1 (same statement of
+# the same source text) or by an entry of the skip lists below, which are printed in the trailer of Exprs3.v; every fn of
+# the two files is translated (part 1 or 3) or listed in SKIPPED_FNS3.  Stale list entries fail.
+
+FILES3 = (OPS, DEC)
+SOURCES3 = {}
+OVERRIDDEN3 = []
+COQ_TYPE2.update({"seqnat": "list nat", "enum:u64": "list (N * N)"})
+COUNT_ONES_PATHS = {"usize::count_ones", "u64::count_ones", "u32::count_ones"}
+
+
+def S3(name, file, fn, path, target, params=(), guard=False):
+    return {"name": name, "file": file, "impl": "", "fn": fn, "path": tuple(path), "target": target,
+            "params": list(params), "abs": {}, "guard": guard, "hints": {}}
+
+
+class Fn3(Fn2):
+    def __init__(self, source, key):
+        Fn2.__init__(self, source, key)
+        info = dict(self.info)
+        # strings are byte lists in the model
+        info["params"] = [(n, "slice:u8" if t == "opaque:str" else t) for n, t in info["params"]]
+        self.info = info
+
+
+def for_binder3(fn, s, binders):
+    """loop variables whose type follows from the loop head: ranges up to the length of a slice, enumerate over a slice
+    parameter or a constant table, iteration over a slice parameter"""
+    h = norm(s.head)
+    known = dict(binders)
+
+    def elem(x):
+        if known.get(x, "").startswith("slice:"):
+            return known[x][6:]
+        return "u64" if x in TABLES_1D else None
+    m = re.fullmatch(r"(\w+) in (?:\d+) \.\. (\w+) \. len \( \)", h)
+    if m and elem(m.group(2)):
+        return [(m.group(1), "usize")]
+    m = re.fullmatch(r"\( (\w+) , (\w+) \) in (\w+) \. (?:iter|iter_mut) \( \)(?: \. rev \( \))? \. enumerate \( \)", h)
+    if m and elem(m.group(3)):
+        return [(m.group(1), "usize"), (m.group(2), elem(m.group(3)))]
+    m = re.fullmatch(r"(\w+) in (\w+)(?: \. (?:iter|iter_mut) \( \))?(?: \. rev \( \))?", h)
+    if m and elem(m.group(2)):
+        return [(m.group(1), elem(m.group(2)))]
+    return []
+
+
+class Translator3(Translator2):
+    def tr(self, e, want=None):
+        if self.abstracted(e) is None:
+            k = e[0]
+            if k == "idx" and e[1][0] == "path" and self.env.get(e[1][1], "").startswith("slice:") and e[2][0] != "range":
+                return "nthN %s %s" % (cid(e[1][1]), self.paren(self.coerce(e[2], "nat"))), self.env[e[1][1]][6:]
+            if k == "range":
+                if e[1] is None or e[2] is None or e[3]:
+                    self.err("only half-open ranges `lo..hi` are in the vocabulary")
+                lo, hi = self.paren(self.coerce(e[1], "nat")), self.paren(self.coerce(e[2], "nat"))
+                return "seq %s (%s - %s)%%nat" % (lo, hi, lo), "seqnat"
+            if k in ("tuple", "str", "char"):
+                self.err("%s literal" % {"tuple": "unit / tuple", "str": "string", "char": "character"}[k])
+        return Translator2.tr(self, e, want)
+
+    def tr_mcall(self, e, want):
+        recv, name, args = e[1], e[2], e[3]
+        if name == "enumerate" and not args and recv[0] == "mcall" and recv[2] == "iter" and not recv[3] \
+                and recv[1][0] == "path" and recv[1][1] in TABLES_1D:
+            t = recv[1][1]
+            return "combine (map N.of_nat (seq 0 (length %s))) %s" % (t, t), "enum:u64"
+        if name == "len" and not args:
+            text, ty = self.tr(recv, None)
+            if ty.startswith("slice:"):
+                return "length %s" % self.paren(text), "nat"
+        return Translator2.tr_mcall(self, e, want)
+
+    def tr_call(self, e, want):
+        f, args = e[1], e[2]
+        if f[0] == "path":
+            name = f[1]
+            if name == "num_vars_mask" and len(args) == 1:
+                return "num_vars_mask %s" % self.paren(self.coerce(args[0], "nat")), "u64"
+            if name in COUNT_ONES_PATHS and len(args) == 1:
+                text, ty = self.tr(args[0], None)
+                if ty not in INT_WIDTH:
+                    self.err("`%s` of `%s` : %s" % (name, text, ty))
+                return "popcount " + self.paren(text), "u32"
+            key = (self.source.rel, "", name)
+            if key in REGISTRY:
+                return self.call_generated(key, list(args), "`%s`" % name)
+        return Translator2.tr_call(self, e, want)
+
+
+def find_target3(fn, spec, block, scope, binders):
+    """the targets of part 3; everything else is a target of part 2"""
+    target, k, _ = split_target(spec["target"])
+    where = "%s [%s]" % (fn.where, ", ".join(spec["path"]))
+    flat = flatten2(fn, block, scope, binders)
+
+    def W(s):
+        return "%s: `%s`" % (where, stmt_text(fn, s))
+    if target == "cond":
+        cands = []
+        for s, sc, bd in flat:
+            if s.kind == "if" and not getattr(s, "is_match", False):
+                for bi, (cond, _) in enumerate(s.branches):
+                    if cond is not None:
+                        cands.append((s, sc, bd, bi))
+        s, sc, bd, bi = pick2(fn, spec, cands, "condition", k)
+        s.conds_covered = getattr(s, "conds_covered", set()) | {bi}
+        spec["_label"] = "%sif %s" % ("else " if bi else "", text_of(fn.src, s.branches[bi][0]))
+        return parse_expr(s.branches[bi][0], W(s)), [s], sc, bd, "bool"
+    if target.startswith("store:") or target.startswith("storeidx:"):
+        kind, tbl = target.split(":")
+        cands = []
+        for s, sc, bd in flat:
+            if s.kind == "assign":
+                lhs = parse_expr(s.lhs, W(s))
+                if lhs[0] == "idx" and lhs[1] == ("path", tbl):
+                    cands.append((s, sc, bd, lhs))
+        s, sc, bd, lhs = pick2(fn, spec, cands, "assignment to an element of", k)
+        if kind == "storeidx":
+            s.idx_covered = True
+            spec["_label"] = "the index written by `%s`" % stmt_text(fn, s)
+            return lhs[2], [s], sc, bd, None
+        s.covered = True
+        return expand_assign(s, W(s)), [s], sc, bd, None
+    if target.startswith("mcallarg:") and "." in target.split(":")[1]:
+        _, rm, idx = target.split(":")
+        recv, meth = rm.split(".")
+        cands = []
+        for s, sc, bd in flat:
+            if s.kind != "expr":
+                continue
+            try:
+                ex = stmt_expr(fn, s)
+            except GenExprError:
+                continue
+            for x in subexprs2(ex):
+                if x[0] == "mcall" and x[2] == meth and x[1] == ("path", recv):
+                    cands.append((s, sc, bd, x[3]))
+        s, sc, bd, args = pick2(fn, spec, cands, "call", k)
+        if int(idx) >= len(args):
+            fail("%s: the call of %s has no argument %s" % (W(s), rm, idx))
+        s.args_covered = getattr(s, "args_covered", set()) | {int(idx)}
+        if len(s.args_covered) == len(args):
+            s.covered = True
+        spec["_label"] = "argument %s of `%s`" % (idx, stmt_text(fn, s))
+        return args[int(idx)], [s], sc, bd, None
+    if target == "ret":
+        cands = [c for c in flat if c[0].kind == "return" and c[0].rhs]
+        s, sc, bd = pick2(fn, spec, cands, "return", k)
+        s.covered = True
+        return parse_expr(s.rhs, W(s)), [s], sc, bd, None
+    if target == "forhead":
+        cands = [c for c in flat if c[0].kind == "for" and c[0].toks[0].text == "for"]
+        s, sc, bd = pick2(fn, spec, cands, "loop", k)
+        j = find_at_depth0(s.head, 0, {"in"}, W(s))
+        if j >= len(s.head):
+            fail("%s: `for` without `in`" % W(s))
+        s.head_covered = True
+        spec["_label"] = "for %s" % text_of(fn.src, s.head)
+        return parse_expr(s.head[j + 1:], W(s)), [s], sc, bd, None
+    if target.startswith("rangelo:") or target.startswith("rangehi:"):
+        kind, name = target.split(":")
+        cands = [c for c in flat if c[0].kind == "let" and c[0].name == name]
+        s, sc, bd = pick2(fn, spec, cands, "local", k)
+        x = parse_expr(s.rhs, W(s)) if s.rhs else ("tuple",)
+        while x[0] == "un" and x[1] == "&":
+            x = x[2]
+        if not (x[0] == "idx" and x[2][0] == "range" and x[2][1] is not None and x[2][2] is not None and not x[2][3]):
+            fail("%s: not a sub-slice `&x[lo..hi]`" % W(s))
+        s.covered = True
+        spec["_label"] = "the %s bound of `%s`" % ("lower" if kind == "rangelo" else "upper", stmt_text(fn, s))
+        return x[2][1 if kind == "rangelo" else 2], [s], sc, bd, None
+    return find_target2(fn, spec, block, scope, binders)
+
+
+def trivial_expr3(e):
+    if e[0] in ("int", "path", "tuple"):
+        return True
+    if e[0] == "un" and e[1] in ("*", "&"):
+        return trivial_expr3(e[2])
+    if e[0] == "field":
+        return trivial_expr3(e[1])
+    if e[0] == "call":
+        return all(trivial_expr3(a) for a in e[2])
+    if e[0] == "mcall":
+        return trivial_expr3(e[1]) and all(trivial_expr3(a) for a in e[3])
+    return False
+
+
+def part1_covered(fn):
+    """token offsets of the statements of this function that a definition of part 1 accounts for"""
+    f1 = FN_CACHE1.get((fn.file, fn.name)) if not fn.impl else None
+    out = set()
+    if f1 is None:
+        return out
+    if f1.src != fn.src:
+        fail("%s: parts 1 and 3 do not read the same source text" % fn.where)
+
+    def walk(b):
+        for s in b:
+            if s.covered:
+                out.add(s.toks[0].start)
+            if s.kind == "for":
+                walk(s.body)
+            elif s.kind == "if":
+                for _, body in s.branches:
+                    walk(body)
+    walk(f1.body)
+    return out
+
+
+def check_coverage3(fn):
+    label = fn_label(fn.impl, fn.name)
+    p1 = part1_covered(fn)
+    used = set()
+
+    def skipped(s):
+        t = norm(s.toks)
+        for (f, l, prefix) in SKIPPED_STMTS3:
+            if f == fn.file and l == label and t.startswith(norm_str(prefix, fn.where)):
+                used.add((f, l, prefix))
+                return True
+        return False
+
+    def walk(b):
+        for s in b:
+            where = "%s: `%s`" % (fn.where, stmt_text(fn, s))
+            ok1 = s.toks[0].start in p1
+            if s.kind == "let":
+                if s.covered or ok1:
+                    continue
+                if (fn.file, label, s.name) in SKIPPED_LETS3:
+                    used.add((fn.file, label, s.name))
+                    continue
+                fail("%s: local is not accounted for by any generated definition" % where)
+            elif s.kind == "assign":
+                if not (s.covered or ok1 or skipped(s)):
+                    fail("%s: assignment is not accounted for by any generated definition" % where)
+                lhs = parse_expr(s.lhs, where)
+                if lhs[0] == "idx" and not trivial_expr3(lhs[2]) and not getattr(s, "idx_covered", False) and not skipped(s):
+                    fail("%s: the index of the written place is not accounted for by any generated definition" % where)
+            elif s.kind in ("expr", "return"):
+                if (s.kind == "return" and not s.rhs) or s.covered or ok1 or skipped(s):
+                    continue
+                if not trivial_expr3(stmt_expr(fn, s)):
+                    fail("%s: statement is not accounted for by any generated definition" % where)
+            elif s.kind == "for":
+                if not getattr(s, "head_covered", False) and not skipped(s):
+                    fail("%s: the loop head `%s` is not accounted for by any generated definition" % (
+                        fn.where, text_of(fn.src, s.head)))
+                walk(s.body)
+            elif s.kind == "if":
+                if s.covered:
+                    continue
+                if getattr(s, "is_match", False):
+                    if not trivial_expr3(parse_expr(s.scrutinee, where)):
+                        fail("%s: the scrutinee of the `match` is not accounted for" % where)
+                else:
+                    done = getattr(s, "conds_covered", set())
+                    for bi, (cond, _) in enumerate(s.branches):
+                        if cond is not None and bi not in done and not trivial_expr3(parse_expr(cond, where)) \
+                                and not skipped(s):
+                            fail("%s: the condition `%s` is not accounted for by any generated definition" % (
+                                fn.where, norm(cond)))
+                for _, body in s.branches:
+                    walk(body)
+    walk(fn.body)
+    return used
+
+
+def _high(prefix, fn, inner=("else",), stride="stride", loopvar="i"):
+    """stride, loop head and guard of a whole-word regime `let stride = 1 << (ind - 6); for i in 0..table.len() { if g {`"""
+    return [
+        S3(prefix + "_stride", OPS if fn != "input_property_helper" else DEC, fn, inner, "let:" + stride, ["ind"]),
+        S3(prefix + "_range", OPS if fn != "input_property_helper" else DEC, fn, inner, "forhead", ["table"]),
+        S3(prefix + "_guard", OPS if fn != "input_property_helper" else DEC, fn, inner, "cond", [stride + ":usize", loopvar]),
+    ]
+
+
+SPECS3 = [
+    # ---- sizes and constants
+    S3("gx_table_size", OPS, "table_size", [], "value"),
+    S3("gx_fill_one_word", OPS, "fill_one", [], "assign:*t", ["num_vars:nat"]),
+    S3("gx_fill_zero_word", OPS, "fill_zero", [], "assign:*t"),
+    S3("gx_fill_nth_var_low", OPS, "fill_nth_var", [], "cond", ["ind"]),
+    # ---- fill_symmetric, word by word
+    S3("gx_sym_cnt", OPS, "fill_symmetric", [], "let:cnt", ["i"]),
+    S3("gx_sym_init", OPS, "fill_symmetric", [], "assign:*t#0"),
+    S3("gx_sym_masks", OPS, "fill_symmetric", [], "forhead#1"),
+    S3("gx_sym_test", OPS, "fill_symmetric", [], "cond", ["count_values", "cnt:usize", "c"], guard=True),
+    S3("gx_sym_or", OPS, "fill_symmetric", ["if#0"], "assign:*t", ["t", "mask"]),
+    S3("gx_sym_final", OPS, "fill_symmetric", [], "assign:*t#1", ["num_vars:nat", "t"]),
+    S3("gx_parity_count_values", OPS, "fill_parity", [], "callarg:fill_symmetric:2"),
+    S3("gx_threshold_is_zero", OPS, "fill_threshold", [], "cond#0", ["k"]),
+    S3("gx_threshold_above", OPS, "fill_threshold", [], "cond#1", ["num_vars", "k"]),
+    S3("gx_majority_k", OPS, "fill_majority", [], "callarg:fill_threshold:2", ["num_vars"]),
+    # ---- text: widths and the arithmetic of fill_hex
+    S3("gx_hex_str_size", OPS, "hex_str_size", [], "value"),
+    S3("gx_to_hex_width", OPS, "to_hex", [], "let:width", ["num_vars"]),
+    S3("gx_to_bin_width", OPS, "to_bin", [], "let:width", ["num_vars"]),
+    S3("gx_fill_hex_width", OPS, "fill_hex", [], "let:width", ["num_vars"]),
+    S3("gx_fill_hex_len_bad", OPS, "fill_hex", [], "cond#1", ["table", "s", "width:usize"]),
+    S3("gx_fill_hex_chunk_lo", OPS, "fill_hex", [], "rangelo:ss", ["width:usize", "i"]),
+    S3("gx_fill_hex_chunk_hi", OPS, "fill_hex", [], "rangehi:ss", ["width:usize", "i"]),
+    S3("gx_fill_hex_overflow", OPS, "fill_hex", ["Ok(v)"], "cond", ["num_vars:nat", "v:u64"]),
+    S3("gx_fill_hex_word", OPS, "fill_hex", ["Ok(v)"], "assign:*t", ["v:u64"]),
+    # ---- swap_inplace: regime selectors, the cross regime (j <= 5 < i), the all-high regime
+    S3("gx_swap_same", OPS, "swap_inplace", [], "cond#0", ["ind1", "ind2"]),
+    S3("gx_swap_low", OPS, "swap_inplace", [], "cond#1", ["i:usize"]),
+    S3("gx_swap_cross", OPS, "swap_inplace", [], "cond#2", ["j:usize"]),
+    S3("gx_swap_cross_mi", OPS, "swap_inplace", ["j <= 5"], "let:mi", ["i:usize"]),
+    S3("gx_swap_cross_range", OPS, "swap_inplace", ["j <= 5"], "forhead", ["table"]),
+    S3("gx_swap_cross_guard", OPS, "swap_inplace", ["j <= 5"], "cond", ["mi:usize", "k"]),
+    S3("gx_swap_cross_load0", OPS, "swap_inplace", ["j <= 5", "if#0"], "let:t0", ["table", "mi:usize", "k"]),
+    S3("gx_swap_cross_load1", OPS, "swap_inplace", ["j <= 5", "if#0"], "let:t1", ["table", "mi:usize", "k"]),
+    S3("gx_swap_cross_dst_lo", OPS, "swap_inplace", ["j <= 5", "if#0"], "storeidx:table#0", ["mi:usize", "k"]),
+    S3("gx_swap_cross_dst_hi", OPS, "swap_inplace", ["j <= 5", "if#0"], "storeidx:table#1", ["mi:usize", "k"]),
+    S3("gx_swap_high_mi", OPS, "swap_inplace", ["else"], "let:mi", ["i:usize"]),
+    S3("gx_swap_high_mj", OPS, "swap_inplace", ["else"], "let:mj", ["j:usize"]),
+    S3("gx_swap_high_range", OPS, "swap_inplace", ["else"], "forhead", ["table"]),
+    S3("gx_swap_high_guard", OPS, "swap_inplace", ["else"], "cond", ["mi:usize", "mj:usize", "k"]),
+    S3("gx_swap_high_a", OPS, "swap_inplace", ["else", "if#0"], "mcallarg:table.swap:0", ["mi:usize", "mj:usize", "k"]),
+    S3("gx_swap_high_b", OPS, "swap_inplace", ["else", "if#0"], "mcallarg:table.swap:1", ["mi:usize", "mj:usize", "k"]),
+    S3("gx_swap_adjacent_other", OPS, "swap_adjacent_inplace", [], "callarg:swap_inplace:3", ["ind"]),
+    # ---- flip / cofactors / from_cofactors: the whole-word regimes
+    S3("gx_flip_low", OPS, "flip_inplace", [], "cond", ["ind"]),
+] + _high("gx_flip_high", "flip_inplace") + [
+    S3("gx_flip_high_a", OPS, "flip_inplace", ["else", "if#0"], "mcallarg:table.swap:0", ["stride:usize", "i"]),
+    S3("gx_flip_high_b", OPS, "flip_inplace", ["else", "if#0"], "mcallarg:table.swap:1", ["stride:usize", "i"]),
+    S3("gx_cof0_low", OPS, "cofactor0_inplace", [], "cond", ["ind"]),
+] + _high("gx_cof0_high", "cofactor0_inplace") + [
+    S3("gx_cof0_high_dst", OPS, "cofactor0_inplace", ["else", "if#0"], "storeidx:table", ["stride:usize", "i"]),
+    S3("gx_cof0_high_val", OPS, "cofactor0_inplace", ["else", "if#0"], "store:table", ["table", "stride:usize", "i"]),
+    S3("gx_cof1_low", OPS, "cofactor1_inplace", [], "cond", ["ind"]),
+] + _high("gx_cof1_high", "cofactor1_inplace") + [
+    S3("gx_cof1_high_dst", OPS, "cofactor1_inplace", ["else", "if#0"], "storeidx:table", ["stride:usize", "i"]),
+    S3("gx_cof1_high_val", OPS, "cofactor1_inplace", ["else", "if#0"], "store:table", ["table", "stride:usize", "i"]),
+    S3("gx_from_cof_low", OPS, "from_cofactors_inplace", [], "cond", ["ind"]),
+    S3("gx_from_cof_low_range", OPS, "from_cofactors_inplace", ["ind <= 5"], "forhead", ["table"]),
+    S3("gx_from_cof_low_dst", OPS, "from_cofactors_inplace", ["ind <= 5"], "storeidx:table", ["i"]),
+] + _high("gx_from_cof_high", "from_cofactors_inplace") + [
+    S3("gx_from_cof_high_then_dst", OPS, "from_cofactors_inplace", ["else", "if#0"], "storeidx:table", ["stride:usize", "i"]),
+    S3("gx_from_cof_high_then_val", OPS, "from_cofactors_inplace", ["else", "if#0"], "store:table", ["t0", "t1", "stride:usize", "i"]),
+    S3("gx_from_cof_high_else_dst", OPS, "from_cofactors_inplace", ["else", "else"], "storeidx:table", ["stride:usize", "i"]),
+    S3("gx_from_cof_high_else_val", OPS, "from_cofactors_inplace", ["else", "else"], "store:table", ["t0", "t1", "stride:usize", "i"]),
+    # ---- next_inplace: control flow
+    S3("gx_next_stop", OPS, "next_inplace", [], "cond", ["t"]),
+    S3("gx_next_hit", OPS, "next_inplace", ["if#0"], "ret"),
+    S3("gx_next_miss", OPS, "next_inplace", [], "tail"),
+    # ---- decomposition.rs: input_property_helper
+    S3("gx_helper_init", DEC, "input_property_helper", [], "let:ret"),
+    S3("gx_helper_low", DEC, "input_property_helper", [], "cond", ["ind"]),
+] + _high("gx_helper_high", "input_property_helper") + [
+    S3("gx_helper_high_c0", DEC, "input_property_helper", ["else", "if#0"], "let:c0", ["table", "stride:usize", "i"]),
+    S3("gx_helper_high_c1", DEC, "input_property_helper", ["else", "if#0"], "let:c1", ["table", "stride:usize", "i"]),
+]
+
+_INPLACE = "in-place iteration over the words of the table (map / mapM / mapi over the list in the model)"
+_PAIRS = "in-place iteration over the zipped tables (map2 in the model)"
+SKIPPED_LETS3 = {
+    (OPS, "fn to_hex", "s"): "the output string (a byte list built by concat in the model)",
+    (OPS, "fn to_bin", "s"): "the output string (a byte list built by concat in the model)",
+}
+# notes printed with the locals over which a definition is abstracted
+OVERRIDDEN_NOTES3 = {
+    (OPS, "fn fill_hex", "v"): "u64::from_str_radix(ss, 16), library parse of one chunk (parse_hex in the model)",
+    (OPS, "fn swap_inplace", "i"): "gx_swap_max of Gen/Exprs.v",
+    (OPS, "fn swap_inplace", "j"): "gx_swap_min of Gen/Exprs.v",
+}
+SKIPPED_STMTS3 = {
+    (OPS, "fn fill_one", "for t in table"): _INPLACE,
+    (OPS, "fn fill_zero", "for t in table"): _INPLACE,
+    (OPS, "fn fill_nth_var", "for t in table"): _INPLACE,
+    (OPS, "fn fill_nth_var", "for (i, t) in table.iter_mut().enumerate()"): _INPLACE,
+    (OPS, "fn fill_symmetric", "for (i, t) in table.iter_mut().enumerate()"): _INPLACE,
+    (OPS, "fn to_hex", "for t in table.iter().rev()"): "iteration over the reversed table (map over rev t in the model)",
+    (OPS, "fn to_hex", "s.push_str("): "format!(\"{:0width$x}\", t): text formatting (pad_radix 16 in the model)",
+    (OPS, "fn to_bin", "for t in table.iter().rev()"): "iteration over the reversed table (map over rev t in the model)",
+    (OPS, "fn to_bin", "s.push_str("): "format!(\"{:0width$b}\", t): text formatting (pad_radix 2 in the model)",
+    (OPS, "fn fill_hex", "if !s.bytes()"): "iterator over the bytes and u8::is_ascii_hexdigit (forallb is_hex_digit in the model)",
+    (OPS, "fn fill_hex", "for (i, t) in table.iter_mut().rev().enumerate()"):
+        "iteration over the reversed table (chunks / all_some / rev in the model)",
+    (OPS, "fn swap_inplace", "for t in table"): _INPLACE,
+    (OPS, "fn flip_inplace", "for t in table"): _INPLACE,
+    (OPS, "fn cofactor0_inplace", "for t in table"): _INPLACE,
+    (OPS, "fn cofactor1_inplace", "for t in table"): _INPLACE,
+    (OPS, "fn next_inplace", "for t in table"): "in-place iteration with early return (the recursion of next_words in the model)",
+    (DEC, "fn input_property_helper", "for t in table"): "iteration over the words of the table (fold_left in the model)",
+}
+SKIPPED_FNS3 = {
+    (OPS, "fn fill_random"): "random source (cfg(feature = \"rand\"); an explicit stream in the model)",
+    (OPS, "fn cmp"): "iterator comparison `table1.iter().rev().cmp(table2.iter().rev())` (lex_cmp on the reversed lists in the model)",
+    (OPS, "fn fmt_hex"): "write! with a string literal (fmt_wrap in the model, property C08/C16)",
+    (OPS, "fn fmt_bin"): "write! with a string literal (fmt_wrap in the model, property C08/C16)",
+    (DEC, "impl DecompositionType :: fn is_trivial"): "membership in an array of enum values",
+    (DEC, "impl DecompositionType :: fn is_and_type"): "membership in an array of enum values",
+    (DEC, "impl DecompositionType :: fn is_xor_type"): "membership in an array of enum values",
+    (DEC, "impl DecompositionType :: fn is_simple_gate"): "membership in an array of enum values",
+    (DEC, "fn top_decomposition"): "calls of the input_* predicates and a chain of tests on their boolean results, enum values",
+}
+NOT_TIED3 = [
+    "loop heads other than `0..table.len()` and COUNT_MASKS.iter().enumerate() (the `for` statements listed above): the "
+    "model iterates over the list, the direction (`.rev()`) and the pairing (`.zip`) are hand-written there",
+    "to_hex / to_bin: the format strings `{:0width$x}` / `{:0width$b}` (radix and zero padding are pad_radix 16 / pad_radix 2 "
+    "of the model, property C08); only the width expressions are generated",
+    "fill_hex: `s.bytes().all(|b| b.is_ascii_hexdigit())`, `u64::from_str_radix(ss, 16)` and the `match` on its result "
+    "(is_hex_digit / parse_hex / all_some of the model); the order `.rev()` of the chunks; `return Err(())` / `Ok(())`",
+    "debug_assert! / assert! lines (recorded with their text by Gen/Guards.v, checked by Proofs/Guards17.v)",
+    "the overflow checks of the index arithmetic (`i + stride`, `k - mj + mi`, `(i + 1) * width`, `num_vars + 1`): plain N "
+    "arithmetic on both sides (the model has no check there; the values are below the table length)",
+]
+
+
+def generate3():
+    if not FN_CACHE1:
+        generate()
+    del OVERRIDDEN3[:]
+    SOURCES3.clear()
+    fn_cache = {}
+    defs = []
+    ALLOW_MATCH[0] = True
+    FOR_BINDER_EXTRA[0] = for_binder3
+    try:
+        for rel in FILES3:
+            SOURCES3[rel] = Source2(rel)
+        for spec in SPECS3:
+            src = SOURCES3[spec["file"]]
+            key = (spec["impl"], spec["fn"])
+            if key not in src.fns:
+                fail("%s: %s not found" % (spec["file"], fn_label(*key)))
+            ck = (spec["file"],) + key
+            if ck not in fn_cache:
+                fn_cache[ck] = Fn3(src, key)
+            spec.pop("_label", None)
+            d = build_definition2(fn_cache[ck], spec, Translator3, find_target3, OVERRIDDEN3)
+            d["label"] = spec.get("_label")
+            defs.append(d)
+        used = set()
+        for ck, fn in fn_cache.items():
+            used |= check_coverage3(fn)
+    finally:
+        ALLOW_MATCH[0] = False
+        FOR_BINDER_EXTRA[0] = None
+    for k in list(SKIPPED_LETS3) + list(SKIPPED_STMTS3):
+        if k not in used:
+            fail("the skip list of part 3 names %s: %s `%s`, which does not exist (any more) or is translated" % k)
+    part1_only = []
+    for rel in FILES3:
+        for key in SOURCES3[rel].order:
+            lab = (rel, fn_label(*key))
+            in3 = (rel,) + key in fn_cache
+            in1 = not key[0] and (rel, key[1]) in FN_CACHE1
+            listed = lab in SKIPPED_FNS3
+            if listed == (in1 or in3):
+                fail("%s: %s is %s" % (rel, lab[1], "both translated and listed as skipped" if listed else
+                                       "neither translated (parts 1, 3) nor listed in SKIPPED_FNS3"))
+            if in1 and not in3:
+                part1_only.append(lab)
+    for lab in SKIPPED_FNS3:
+        if not any(lab == (rel, fn_label(*key)) for rel in FILES3 for key in SOURCES3[rel].order):
+            fail("the skip list of part 3 names %s: %s, which does not exist" % lab)
+
+    L = []
+    L.append("(* GENERATED by gen/gen_exprs.py (part 3) from src/operations.rs and src/decomposition.rs - do not edit.")
+    L.append("   What Gen/Exprs.v leaves to the hand-written model: the whole-word regimes (strides, loop guards, indices of the")
+    L.append("   words read and written, which word goes where), the regime selectors, fill_symmetric word by word, the sizes and")
+    L.append("   widths, the arithmetic of fill_hex, the control flow of next_inplace.  Translated from the Rust source text on")
+    L.append("   every run; Proofs/ExprsTie3.v proves that each definition is the expression of the hand-written model.")
+    L.append("   usize values are N; `x[e]` on a slice is nthN x (N.to_nat e); x.len() is length x. *)")
+    L.append("From Coq Require Import List NArith Arith Bool.")
+    L.append("From V Require Import Base.Res Gen.Tables Model.Kernels.")
+    L.append("Import ListNotations.")
+    L.append("Open Scope N_scope.")
+    L.append("")
+    translated_lets = {(d["file"], d["fn"], d["target"][4:]) for d in defs if d["target"].startswith("let:")}
+    for d in defs:
+        regime = (" [" + ", ".join(d["path"]) + "]") if d["path"] else ""
+        loc = "%s: %s%s" % (d["file"].replace("src/", ""), fn_label(d["impl"], d["fn"]), regime)
+        if d["src"] is not None:
+            cm = "(* %s, whole body\n   `%s`" % (loc, coq_comment(d["src"]))
+        elif d["label"]:
+            cm = "(* %s, %s" % (loc, coq_comment(d["label"]))
+        else:
+            cm = "(* %s, `%s`" % (loc, coq_comment(d["stmt"]))
+        if d["lets"]:
+            cm += "\n   with " + "  ".join("`%s`" % coq_comment(x) for x in d["lets"])
+        if d["calls"]:
+            cm += "\n   forwards to " + ", ".join(d["calls"])
+        cm += " *)"
+        L.append(cm)
+        L.append(d["text"])
+        if d["guard"]:
+            L.append("(* dev-profile checks of the shift amounts of the statement above (amount < width of the shifted type) *)")
+            L.append(d["guard"])
+        L.append("")
+    L.append("(* functions of the two files translated by part 1 only (Gen/Exprs.v):")
+    L.append("   " + ", ".join("%s: %s" % (f.replace("src/", ""), l) for f, l in part1_only))
+    L.append("   functions of the two files that are NOT translated:")
+    for (file, lab), why in sorted(SKIPPED_FNS3.items()):
+        L.append("   %s: %s - %s" % (file.replace("src/", ""), lab, coq_comment(why)))
+    L.append("   statements, loop heads and locals of the translated functions that are not translated:")
+    for (file, lab, name), why in sorted(SKIPPED_LETS3.items()):
+        L.append("   %s: %s `let %s` - %s" % (file.replace("src/", ""), lab, name, coq_comment(why)))
+    for (file, lab, st), why in sorted(SKIPPED_STMTS3.items()):
+        L.append("   %s: %s `%s ..` - %s" % (file.replace("src/", ""), lab, coq_comment(st), coq_comment(why)))
+    L.append("   locals over which a definition above is abstracted without being translated by another one:")
+    for file, lab, st in OVERRIDDEN3:
+        m = re.match(r"let (?:mut )?(\w+)", st)
+        fname = lab[3:] if lab.startswith("fn ") else lab
+        if m and (file, fname, m.group(1)) in translated_lets:
+            continue
+        note = OVERRIDDEN_NOTES3.get((file, lab, m.group(1) if m else ""))
+        L.append("   %s: %s `%s`%s" % (file.replace("src/", ""), lab, coq_comment(st), (" - " + note) if note else ""))
+    L.append("   shifts whose dev-profile amount check is NOT emitted (the model has no check there either):")
+    for d in defs:
+        sh = [(a, w) for a, w in d["shifts"] if not (a.isdigit() and w and int(a) < w)]
+        if sh and not d["guard"]:
+            L.append("   %s: %s" % (d["name"], ", ".join("%s < %s" % (a, w if w else "width of an untyped literal") for a, w in sh)))
+    L.append("   not tied (see Proofs/ExprsTie3.v):")
+    for t in NOT_TIED3:
+        L.append("   - " + coq_comment(t))
+    L.append("*)")
+    L.append("")
+    return "\n".join(L), defs
+
+
 def main(verbose=False, out_dir=None):
-    """regenerates coq/Gen/Exprs.v and coq/Gen/Exprs2.v (or <out_dir>/...); returns True when a file content changed"""
+    """regenerates coq/Gen/Exprs.v, coq/Gen/Exprs2.v and coq/Gen/Exprs3.v (or <out_dir>/...); returns True when a file
+    content changed"""
     out = out_dir or os.environ.get("VERIF_EXPRS_OUT") or COQ
     content, defs = generate()
     changed = G.write_if_changed(os.path.join(out, "Exprs.v"), content)
     content2, defs2 = generate2()
     changed2 = G.write_if_changed(os.path.join(out, "Exprs2.v"), content2)
+    content3, defs3 = generate3()
+    changed3 = G.write_if_changed(os.path.join(out, "Exprs3.v"), content3)
     if verbose:
         for d in defs:
             print("%-28s %s: %s%s  `%s`" % (d["name"], d["file"], d["fn"],
@@ -2698,7 +3321,13 @@ def main(verbose=False, out_dir=None):
                                           ("`%s`" % d["stmt"]) if d["stmt"] else "(whole body)" if d["src"] else "(region value)"))
         print("Exprs2.v %s (%d definitions, %d shift checks)" % ("rewritten" if changed2 else "unchanged", len(defs2),
                                                                    sum(1 for d in defs2 if d["guard"])))
-    return changed or changed2
+        for d in defs3:
+            print("%-28s %s: %s%s  %s" % (d["name"], d["file"], fn_label(d["impl"], d["fn"]),
+                                          (" [" + ", ".join(d["path"]) + "]") if d["path"] else "",
+                                          d["label"] or (("`%s`" % d["stmt"]) if d["stmt"] else "(whole body)")))
+        print("Exprs3.v %s (%d definitions, %d shift checks)" % ("rewritten" if changed3 else "unchanged", len(defs3),
+                                                                   sum(1 for d in defs3 if d["guard"])))
+    return changed or changed2 or changed3
 
 
 if __name__ == "__main__":
